@@ -532,7 +532,7 @@ pub proof fn narrow_ok(b: Seq<u8>, w: nat, x: nat, n: nat)
 pub mod prefix_input {
 use super::*;
 broadcast use auto::psc_auto;
-//@module prefix_input props=C03,C04,C08
+//@module prefix_input props=C03,C04,C08,C11,C12
 impl<'a, T: 'a + Input> Input for PrefixInput<'a, T> {
     open spec fn bytes(&self) -> Seq<u8> {
         match self.prefix { Some(v) => seq![v] + self.input.bytes(), None => self.input.bytes() }
@@ -632,11 +632,12 @@ DEC_SMALL = r"""
 pub mod compact_dec_$T {
 use super::*;
 broadcast use auto::psc_auto;
-//@module compact_dec_$T props=C02,C03,C04,C08,C14,C18
+//@module compact_dec_$T props=C02,C03,C04,C08,C11,C12,C14,C18
 impl Decode for Compact<$T> {
     open spec fn accepts(b: Seq<u8>) -> Option<nat> { compact_accepts(b, $N) }
     open spec fn dec_bytes(v: &Self) -> Seq<u8> { compact(v.0 as nat) }
     open spec fn need_depth(b: Seq<u8>) -> nat { 0 }
+    open spec fn need_mem(b: Seq<u8>) -> Option<nat> { None }
     proof fn law_bound(b: Seq<u8>) { reveal(compact_dec); }
     //@fn compact.$T.decode :: compact | impl Decode for Compact<$T> | decode
     //@ ret r
@@ -697,7 +698,7 @@ DEC_BIG = r"""
 pub mod compact_dec_$T {
 use super::*;
 broadcast use auto::psc_auto;
-//@module compact_dec_$T props=C02,C03,C04,C08,C14
+//@module compact_dec_$T props=C02,C03,C04,C08,C11,C12,C14
 pub proof fn or_shift_$T(res: $T, b: u8, i: u8)
     requires i < $N, (res as nat) < pow256(i as nat)
     ensures (res | (((b as $T)) << ((i * 8) as $T))) as nat == res as nat + (b as nat) * pow256(i as nat)
@@ -716,6 +717,7 @@ impl Decode for Compact<$T> {
     open spec fn accepts(b: Seq<u8>) -> Option<nat> { compact_accepts(b, $N) }
     open spec fn dec_bytes(v: &Self) -> Seq<u8> { compact(v.0 as nat) }
     open spec fn need_depth(b: Seq<u8>) -> nat { 0 }
+    open spec fn need_mem(b: Seq<u8>) -> Option<nat> { None }
     proof fn law_bound(b: Seq<u8>) { reveal(compact_dec); }
     #[verifier::rlimit(40)]
     #[verifier::spinoff_prover]
@@ -731,6 +733,10 @@ $START    //@ at before `let prefix = input.read_byte()?;`
 $ARMS    //@ at before `let mut res = 0;`
     //@+ proof {
     //@+     compact_dec_big_lemmas::pow256_table();
+    //@+     assert(prefix == b0[0]);
+    //@+     assert((prefix >> 2u8) == prefix / 4);
+    //@+     assert(bytes_needed == prefix / 4 + 4);
+    //@+     assert(5 <= bytes_needed < $N);
     //@+     max_shift_$T(bytes_needed);
     //@+     assert(b0.subrange(1, 1) =~= Seq::<u8>::empty());
     //@+ }
